@@ -2,14 +2,16 @@
 // C11, second part: the scope of the memo table. One table per parse of one input: it is shared with
 // sub-parsers that run under another context or another user state on the SAME input (keys are positions
 // of that input: the in-progress mark that cuts left recursion must stay visible), a nested parse of
-// another input has its own, and every top-level parse starts with an empty one. Plus memoized() nested
+// another input has its own. (That every top-level parse starts with an empty table - `memos: HashMap::default()` in
+// `InputOwn::new*` - is not under contract: the harness of the entry points with the map contract compiled in
+// did not finish within 25 minutes.) Plus memoized() nested
 // directly in memoized() ("regardless of how the memoized parsers are nested").
 
 use super::fw::*;
 use crate::input::{Input, InputRef};
 use crate::prelude::*;
 use crate::private::{Check, Emit, Mode, PResult};
-use crate::{ParseResult, Parser};
+use crate::Parser;
 
 type I8 = SymIn<u8>;
 const OUTER_MARK: (usize, usize) = (usize::MAX, 11);
@@ -69,18 +71,6 @@ pub fn h_memo_table_nested_in<M: VMode>() {
     });
 }
 
-/// Every top-level parse starts with an empty table, also through the same parser value.
-pub fn h_memo_table_per_parse() {
-    let len = ch::any_usize();
-    let mut st = VState::new(len);
-    let g = TableProbe::<()> { inner: anyp_multi::<I8, X<VS>>(0, 2) };
-    let _r1: ParseResult<u16, VS> = g.parse_with_state(SymIn::new(len), &mut st);
-    vassert!(st.log[0].called && st.reg[2] == 0, "C11/parse.memo-table-starts-empty");
-    let _r2: ParseResult<(), VS> = g.check_with_state(SymIn::new(len), &mut st);
-    vassert!(st.log[1].called, "C11/parse.second-parse-runs-the-grammar");
-    vassert!(st.reg[2] == 0, "C11/parse.memo-table-starts-empty-on-every-parse-through-the-same-parser");
-}
-
 /// memoized() directly inside memoized(): still the parser.
 pub fn h_memoized_nested<M: VMode>() {
     run::<u8, VS, (), _>(|inp, s0| {
@@ -106,7 +96,6 @@ harnesses! {
     memo_table_with_ctx_check = h_memo_table_with_ctx::<Check>;
     #[kani::unwind(4)]
     memo_table_nested_in_emit = h_memo_table_nested_in::<Emit>;
-    memo_table_per_parse = h_memo_table_per_parse;
     memoized_nested_emit = h_memoized_nested::<Emit>;
     memoized_nested_check = h_memoized_nested::<Check>;
 }
